@@ -72,6 +72,14 @@ CONTRACTS.append(Contract(
     note="every position lies in exactly one [b[i], b[i+1]): boundaries tile the range (existence; uniqueness is monotonicity)",
 ))
 
+CONTRACTS.append(Contract(
+    MODULE, "lemma_divmod_any",
+    params={"d": T.Int, "b": T.Int},
+    requires=["b >= 1"],
+    ensures=[("euclid", "d == b * (d // b) + d % b"), ("range", "0 <= d % b and d % b < b"), ("sign", "implies(d < 0, d // b <= 0 - 1) and implies(d >= 0, d // b >= 0)")],
+    note="floor division by a positive divisor, any dividend; nonlinear: discharged in isolation",
+))
+
 _ID = lambda m: f"(({m}) * c + (({m}) if ({m}) < r else r))"
 CONTRACTS.append(Contract(
     MODULE, "lemma_ideal_mono",
